@@ -54,6 +54,7 @@ class Ctx:
         self.samples = []
         self.violations = {}      # key -> {'count': n, 'cases': [...]}
         self.inconclusive_reasons = []
+        self.undecided_reasons = []
         self.notes = []
         self.t0 = time.time()
         self.deadline = deadline  # soft deadline (epoch seconds) for workloads that loop
@@ -101,6 +102,14 @@ class Ctx:
         if reason not in self.inconclusive_reasons:
             self.inconclusive_reasons.append(reason)
 
+    def undecided(self, reason):
+        """One CASE could not be decided (a scheduling gate expired, the forced order did not come about): it is not counted
+        as evaluated, it is listed in the evidence, and the run stays conclusive only while such cases remain few
+        (the driver's rule: at most max(3, 5%) of the cases)."""
+        self.counters['undecided_cases'] = self.counters.get('undecided_cases', 0) + 1
+        if len(self.undecided_reasons) < 20:
+            self.undecided_reasons.append(reason)
+
     def note(self, text):
         if len(self.notes) < 20:
             self.notes.append(text)
@@ -128,6 +137,7 @@ class Ctx:
             'samples': self.samples,
             'violations': self.violations,
             'inconclusive': self.inconclusive_reasons,
+            'undecided': self.undecided_reasons,
             'notes': self.notes,
             'wall_s': round(time.time() - self.t0, 3),
         }
